@@ -153,6 +153,8 @@ type Exec struct {
 	depth    int
 	safety   bool // emit implicit safety obligations (index, div, ...)
 	nilcheck bool
+	nosplit  bool
+	exhaustOnly bool
 	errs     []string
 	trusted  map[string]bool // assumptions used (for the evidence)
 	kindCnt  map[string]int
@@ -203,6 +205,7 @@ func (e *Exec) oblige(kind, label string, reach, goal Term, pos token.Pos) {
 	}
 	parts := []Term{goal}
 	switch {
+	case e.nosplit:
 	case kind == "ensures", kind == "invariant-init", kind == "invariant-step", kind == "assert", strings.HasPrefix(kind, "requires@"):
 		parts = e.c.conjuncts(goal)
 	}
